@@ -7,6 +7,7 @@ from .. import AnalysisError
 from ..rules import (effective_member, check_identity_handler, is_raising, mapper_node_pairs,
                      where)
 from ..summary import NODE, contains, summarize
+from ..rules import handler_summaries
 
 PRIM = "pymbolic.primitives"
 CF = "pymbolic.mapper.constant_folder"
@@ -897,12 +898,19 @@ def _collector_accepts_distributor_terms(ctx, model, dm):
             continue
         if not node.decorated:
             continue        # legacy exact nodes hold numbers, no variables
+        # (read from the returned values, with locals resolved: a node of the
+        # handled class constructed inside the product that is returned)
+        def _walk(v, d=0):
+            if isinstance(v, tuple) and d < 40:
+                yield v
+                for x in v:
+                    yield from _walk(x, d + 1)
         builds_own = any(
-            isinstance(c, ast.Call) and isinstance(c.func, ast.Call)
-            and ast.unparse(c.func.func) == "type"
-            for r in ast.walk(mem.node) if isinstance(r, ast.Return)
-            and r.value is not None for c in ast.walk(r.value)
-            if "flattened_product" in ast.unparse(r.value))
+            ps.term == "return" and isinstance(ps.retval, tuple) and any(
+                x[:1] == ("call",) and "flattened_product" in str(x[1]) and any(
+                    y[:2] == ("ctor", ("typeof", NODE)) for y in _walk(x))
+                for x in _walk(ps.retval))
+            for ps in handler_summaries(model, node, mem.node))
         if not builds_own:
             continue
         n += 1
@@ -995,9 +1003,196 @@ def _term_collector(ctx, model):
     if st is None or ms is None:
         raise AnalysisError("TermCollector.split_term/map_sum not found")
     loc = tc.module.loc(st.node)
+    try:
+        wit_st = _judge_split_term(model.inlined(st.node), tc)
+    except AnalysisError as e:
+        wit_st = None
+        ctx.extra["judge_unavailable:TermCollector.split_term"] = str(e)
+    if wit_st is not None:
+        ctx.ob("P0/TermCollector.split_term/split-semantics", not wit_st, loc,
+               "split_term interpreted on products of powers of variables, "
+               "parameters and numbers: the key is the set of (base, summed "
+               "exponent) over the non-parameter bases, whatever their order, "
+               "the coefficient the product of the rest with their exponents"
+               if not wit_st else
+               "TermCollector.split_term: " + "; ".join(wit_st[:2]))
+    mark_st = len(ctx.obs)
+    try:
+        _split_term_structural(ctx, tc, st, loc)
+    except AnalysisError:
+        if wit_st is None or wit_st:
+            raise
+    if wit_st is not None and not wit_st:
+        ctx.withdraw_failures_since(mark_st, "decided by interpreting split_term")
+    try:
+        sum_table = _tc_sum_table(ms.node)
+    except AnalysisError:
+        sum_table = None
+    # map_sum: the judge interprets it; the structural reading below stands
+    # only where the judge agrees
+    try:
+        wit_ms = _judge_collect_sum(ms.node, tc)
+    except AnalysisError as e:
+        ctx.extra["judge_unavailable:TermCollector.map_sum"] = str(e)
+        if sum_table is None:
+            raise
+        _map_sum_structural(ctx, tc, ms, sum_table)
+        return
+    ctx.ob("P0/TermCollector.map_sum/collect-semantics", not wit_ms,
+           tc.module.loc(ms.node),
+           "map_sum interpreted on sums whose summands split into given (term, "
+           "coefficient) pairs: the result is sum over the distinct terms of "
+           "(sum of their coefficients) * term" if not wit_ms else
+           "TermCollector.map_sum: " + "; ".join(wit_ms[:2]))
+    mark_ms = len(ctx.obs)
+    try:
+        if sum_table is None:
+            raise AnalysisError("TermCollector.map_sum: the collected table was "
+                                "not recognised")
+        _map_sum_structural(ctx, tc, ms, sum_table)
+    except AnalysisError:
+        if wit_ms:
+            raise
+    if not wit_ms:
+        ctx.withdraw_failures_since(mark_ms, "decided by interpreting map_sum")
+
+
+def _judge_split_term(fn, tc):
+    """interpretive judge (pv/absint.py).  -> witnesses"""
+    from ..absint import Interp, Obj, Opaque, Poly, Raised, StepBound, module_env
+    from ..absint import default_isinstance
+    helpers = {k: v.node for k, v in tc.members.items() if v.kind == "func"}
+    X, Y, P, Q = (Poly.sym(n) for n in "XYPQ")
+    params = {"P", "Q"}
+
+    def power(b, e):
+        return Obj("Power", {"base": b, "exponent": e})
+
+    def product(*ch):
+        return Obj("Product", {"children": tuple(ch)})
+    # (input, [(base, exponent), ...] in factors)
+    cases = [
+        ("X*X**2*P*Y", product(X, power(X, 2), P, Y), [(X, 1), (X, 2), (P, 1), (Y, 1)]),
+        ("Y*X", product(Y, X), [(Y, 1), (X, 1)]),
+        ("X*Y", product(X, Y), [(X, 1), (Y, 1)]),
+        ("X**2", power(X, 2), [(X, 2)]),
+        ("P**3", power(P, 3), [(P, 3)]),
+        ("X", X, [(X, 1)]),
+        ("P", P, [(P, 1)]),
+        ("7", 7, [(7, 1)]),
+        ("P*P**2*3*Q", product(P, power(P, 2), 3, Q), [(P, 1), (P, 2), (3, 1), (Q, 1)]),
+        ("X**2*P**2*X**-1", product(power(X, 2), power(P, 2), power(X, -1)),
+         [(X, 2), (P, 2), (X, -1)]),
+        ("X*Y*X**-1", product(X, Y, power(X, -1)), [(X, 1), (Y, 1), (X, -1)]),
+    ]
+
+    def deps(v):
+        if isinstance(v, Poly):
+            return {n for mono in v.t for n, _ in mono}
+        if isinstance(v, Obj) and v.cls == "Power":
+            return deps(v.fields["base"]) | deps(v.fields["exponent"])
+        if isinstance(v, Obj) and v.cls == "Product":
+            out = set()
+            for c in v.fields["children"]:
+                out |= deps(c)
+            return out
+        if isinstance(v, (int, float)):
+            return set()
+        raise AnalysisError(f"dependencies of {v!r}")
+
+    def _isinst(it, n, a, k):
+        v = a[0]
+        cs = a[1] if isinstance(a[1], tuple) else (a[1],)
+        names = [getattr(c, "what", "").split(" ")[-1].split(".")[-1] for c in cs]
+        if all(nm in ("Power", "Product", "AlgebraicLeaf", "Quotient", "Sum",
+                      "Expression", "Variable", "Leaf") for nm in names):
+            if isinstance(v, Obj):
+                return v.cls in names or "Expression" in names
+            if isinstance(v, Poly) and not v.is_const():
+                return bool({"AlgebraicLeaf", "Expression", "Variable", "Leaf"}
+                            & set(names))
+            return False
+        r = default_isinstance(v, a[1])
+        if r is None:
+            raise AnalysisError(f"isinstance(..., {a[1]!r})")
+        return r
+
+    def pprod(it_, n_, a, k):
+        tot = Poly.const(1)
+        for x in a[0]:
+            tot = tot * Poly.lift(x)
+        return tot
+    glob = module_env(tc.module.tree, {"pymbolic": Opaque("module pymbolic")})
+    wit = []
+    keys = {}
+    for label, inp, factors in cases:
+        class Mp:
+            pass
+        mp = Mp()
+
+        def attrs(it, node, base, attr, _mp=mp):
+            if base is _mp:
+                if attr == "rec":
+                    return lambda x, *a, **k: x
+                if attr == "parameters":
+                    return set(params)
+                if attr == "get_dependencies":
+                    return lambda v: deps(v)
+                if attr in helpers and attr != "split_term":
+                    return lambda *a, **k: it.call_function(
+                        helpers[attr], [_mp] + list(a), {"__kwargs__": dict(k)})
+                raise AnalysisError(f"mapper attribute {attr}")
+            return Opaque(ast.unparse(node))
+        it = Interp(calls={"pymbolic.flattened_product": pprod,
+                           "flattened_product": pprod, "isinstance": _isinst},
+                    attrs=attrs, globals_=glob, max_steps=50000)
+        b2e = {}
+        for b, e in factors:
+            b2e[Poly.lift(b)] = b2e.get(Poly.lift(b), 0) + e
+        want_key = set()
+        want_coeff = Poly.const(1)
+        for b, e in b2e.items():
+            if deps(b) <= params:
+                want_coeff = want_coeff * b ** e
+            else:
+                want_key.add((b, e))
+        try:
+            got = it.call_function(fn, [mp, inp], dict(glob))
+        except Raised as r:
+            wit.append(f"{label}: raises at line {r.node.lineno}")
+            continue
+        except StepBound:
+            wit.append(f"{label}: does not terminate")
+            continue
+        if not (isinstance(got, tuple) and len(got) == 2):
+            wit.append(f"{label}: returns {got!r}")
+            continue
+        key, coeff = got
+        try:
+            hash(key)
+            as_set = {(Poly.lift(b), e) for b, e in key}
+        except Exception:      # noqa: BLE001
+            wit.append(f"{label}: the term key {key!r} is not a hashable "
+                       "collection of (base, exponent) pairs")
+            continue
+        # (b**0 is 1 wherever it evaluates: an entry whose exponents cancelled
+        # may stay or go)
+        nz = {(b, e) for b, e in as_set if e != 0}
+        if nz != {(b, e) for b, e in want_key if e != 0} or \
+                len(list(key)) != len(as_set):
+            wit.append(f"{label}: term key {sorted(map(str, as_set))}, expected "
+                       f"{sorted(map(str, want_key))}")
+        if not isinstance(coeff, (Poly, int)) or Poly.lift(coeff) != want_coeff:
+            wit.append(f"{label}: coefficient {coeff!r}, expected {want_coeff!r}")
+        keys[label] = key
+    if "X*Y" in keys and "Y*X" in keys and keys["X*Y"] != keys["Y*X"]:
+        wit.append("x*y and y*x get different like-term keys and are not merged")
+    return wit
+
+
+def _split_term_structural(ctx, tc, st, loc):
     # roles of the local containers, from the data flow into the return value
     coef_name, clean_name, table_name = _tc_roles(st.node)
-    sum_table = _tc_sum_table(ms.node)
     n_coeff = n_term = 0
     ok_coeff = ok_term = ok_once = True
     for ps in summarize(st.node, node_param=False, loop_mode="1"):
@@ -1071,28 +1266,6 @@ def _term_collector(ctx, model):
     ctx.ob("P/TermCollector.split_term/exponents-add", ok_acc, loc,
            "exponents of equal bases are added" if ok_acc else
            "split_term does not add the exponents of repeated bases")
-    # map_sum: the judge interprets it; the structural reading below stands
-    # only where the judge agrees
-    try:
-        wit_ms = _judge_collect_sum(ms.node, tc)
-    except AnalysisError as e:
-        ctx.extra["judge_unavailable:TermCollector.map_sum"] = str(e)
-        _map_sum_structural(ctx, tc, ms, sum_table)
-        return
-    ctx.ob("P0/TermCollector.map_sum/collect-semantics", not wit_ms,
-           tc.module.loc(ms.node),
-           "map_sum interpreted on sums whose summands split into given (term, "
-           "coefficient) pairs: the result is sum over the distinct terms of "
-           "(sum of their coefficients) * term" if not wit_ms else
-           "TermCollector.map_sum: " + "; ".join(wit_ms[:2]))
-    mark_ms = len(ctx.obs)
-    try:
-        _map_sum_structural(ctx, tc, ms, sum_table)
-    except AnalysisError:
-        if wit_ms:
-            raise
-    if not wit_ms:
-        ctx.withdraw_failures_since(mark_ms, "decided by interpreting map_sum")
 
 
 def _judge_collect_sum(fn, tc):
